@@ -217,7 +217,7 @@ def _hexgrid_edge_margin(shape, rings, radius, gap, rotate):
 def workload(ctx, lentil):
     rng = ctx.rng
     U, H = lentil.util, lentil.helper
-    n = 160 if ctx.tier == 'quick' else 1200
+    n = ctx.count(160, 1200)
 
     # ---- pad / crop ---------------------------------------------------------
     for i in range(n * 2):
@@ -428,7 +428,7 @@ def workload(ctx, lentil):
                   'shape does not translate exactly under an integer shift', dict(desc, shift=[a, b]))
 
     # ---- hex_segments ---------------------------------------------------------------------
-    nh = 24 if ctx.tier == 'quick' else 120
+    nh = ctx.count(24, 120)
     for i in range(nh):
         rings = int(rng.integers(1, 4 if ctx.tier == 'thorough' else 3))
         radius = float(rng.uniform(3, 9)) if rng.random() < 0.6 else float(rng.integers(3, 10))
